@@ -170,9 +170,10 @@ def excel_rows(source_path, sheet=1):
 
 def _raise_delimited_data_format_error(delimited_path, reader, error):
     location = errors.Location(delimited_path)
+    # NOTE: ``line_num`` is the number of lines read so far and consequently 1 for an error in the first line.
     line_number = reader.line_num
-    if line_number > 0:
-        location.advance_line(line_number)
+    if line_number > 1:
+        location.advance_line(line_number - 1)
     raise errors.DataFormatError("cannot parse delimited file: %s" % error, location)
 
 
